@@ -52,8 +52,8 @@ def expected_mech(sasl, authmech):
     return None
 
 
-def check(sasl, authmech, login, password, authz, verdict, refuse=False, realm="example.org"):
-    cfg = {"sasl": sasl, "auth_ok": verdict, "password": password, "realm": realm}
+def check(sasl, authmech, login, password, authz, verdict, refuse=False, realm="example.org", nonce="OA6MG9tEQGm2hh"):
+    cfg = {"sasl": sasl, "auth_ok": verdict, "password": password, "realm": realm, "nonce": nonce}
     if refuse:
         # the server answers the initial AUTHENTICATE of whatever mechanism with NO
         cfg["faults"] = [(b"AUTHENTICATE", 0, "NO")]
@@ -132,10 +132,11 @@ def worker(arg):
         password = data.draw(cred())
         authz = data.draw(st.one_of(st.just(""), cred()))
         verdict = data.draw(st.booleans())
-        realm = data.draw(st.sampled_from(["example.org", None, "ex ample", "r\u00e9alm"]))
+        realm = data.draw(st.sampled_from(["example.org", None, "ex ample", "r\u00e9alm", "dc=example"]))
+        nonce = data.draw(st.sampled_from(["OA6MG9tEQGm2hh", "OA6MG9tEQGm2hh==", "a=b", "x+/y=", "0123456789abcdef"]))
         if data.draw(st.integers(0, 9)) == 0:
             password = ""
-        fails, exp = check(sasl, authmech, login, password, authz, verdict, realm=realm)
+        fails, exp = check(sasl, authmech, login, password, authz, verdict, realm=realm, nonce=nonce)
         nimpl = len([m for m in (sasl or []) if m in IMPL])
         nt = nimpl >= 2 or any((ord(c) > 127 or c in ',="\\ ') for c in login + password + authz)
         classes = ["mech:%s" % exp, "authmech:%s" % authmech, "verdict:%s" % verdict, "sasl:" + ("missing" if sasl is None else "empty" if not sasl else "n=%d" % len(sasl))]
@@ -144,7 +145,7 @@ def worker(arg):
         sample = {"sasl": sasl, "authmech": authmech, "login": login, "password": password, "authz": authz, "verdict": verdict} if nt and col.evals % 89 == 0 else None
         col.case(key=repr((sasl, authmech, login, password, authz, verdict)), nontrivial=nt, classes=classes, sample=sample)
         for b, d in fails:
-            col.fail(b, {"sasl": sasl, "authmech": authmech, "login": login, "password": password, "authz": authz, "verdict": verdict, "realm": realm}, d,
+            col.fail(b, {"sasl": sasl, "authmech": authmech, "login": login, "password": password, "authz": authz, "verdict": verdict, "realm": realm, "nonce": nonce}, d,
                      size=len(login) + len(password) + len(authz) + 5 * len(sasl or []))
 
     body()
@@ -164,7 +165,7 @@ def worker(arg):
 
 
 def replay(case):
-    return check(case["sasl"], case["authmech"], case["login"], case["password"], case["authz"], case["verdict"], case.get("refuse", False), case.get("realm", "example.org"))[0]
+    return check(case["sasl"], case["authmech"], case["login"], case["password"], case["authz"], case["verdict"], case.get("refuse", False), case.get("realm", "example.org"), case.get("nonce", "OA6MG9tEQGm2hh"))[0]
 
 
 def main(tier, seed, t0):
